@@ -77,6 +77,14 @@ Fixpoint insert (r : rid) (p : pid) (m : omap) : omap :=
   | (r', q) :: t => if N.eqb r r' then (r', p) :: t else (r', q) :: insert r p t
   end.
 
+(* environment.rs:1241 `if let Some(owner) = self.resource_ownership.get_mut(id) { *owner = new }`:
+   re-assign the binding only when the key is present *)
+Fixpoint reassign (r : rid) (p : pid) (m : omap) : omap :=
+  match m with
+  | [] => []
+  | (r', q) :: t => if N.eqb r r' then (r', p) :: t else (r', q) :: reassign r p t
+  end.
+
 (* HashMap::remove *)
 Fixpoint remove (r : rid) (m : omap) : omap :=
   match m with
@@ -95,10 +103,11 @@ Record state : Type := mkState {
 (* after `start_process` of the root: process 0 exists, next id is 1 *)
 Definition init : state := mkState [] [] [] 1 [].
 
-(* environment.rs:1238 transfer_resource_ownership — recursive through tuples and closures *)
+(* environment.rs:1238 transfer_resource_ownership — recursive through tuples and closures; only a
+   resource that is currently registered changes hands (a stale handle is not registered again) *)
 Fixpoint transfer (v : val) (new_owner : pid) (m : omap) : omap :=
   match v with
-  | VRes r => insert r new_owner m
+  | VRes r => reassign r new_owner m
   | VTuple fields => fold_left (fun m f => transfer f new_owner m) fields m
   | VFun captures => fold_left (fun m c => transfer c new_owner m) captures m
   | VOther => m
@@ -263,9 +272,9 @@ Definition stale_useb (s : state) (e : event) : bool :=
   end.
 Definition KnownF47 (h : list event) : Prop := anyb stale_useb init h = true.
 
-(* F48: a send/spawn carrying an id that is not in the ownership map (closed, or never issued) *)
+(* a send/spawn carrying an id that is not in the ownership map (closed, or never issued): since the
+   repair of F48 such a transfer registers nothing (statistic only) *)
 Definition stale_transferb (s : state) (e : event) : bool := existsb (absentb s) (transferred e).
-Definition KnownF48 (h : list event) : Prop := anyb stale_transferb init h = true.
 
 (* F49: a send/spawn by process q carrying an id owned by somebody else *)
 Definition initiator (e : event) : option pid :=
